@@ -14,6 +14,7 @@
 import sys
 from ast import NodeTransformer
 
+from .. import _verif
 from .astrewriter import ASTRewriter
 from .constantfolder import ConstantFolder
 from .replacemultitargetassign import ReplaceMultiTargetAssign
@@ -37,20 +38,38 @@ def ast2ast(a_tree):
     if sys.version_info < (3, 9):
         a_tree = IndexReplacer().visit(a_tree)
 
+    if _verif.ON:
+        _verif.emit("a2a.pass", name="input", tree=a_tree)
+
     # Fold constants
     a_tree = ConstantFolder().visit(a_tree)
+
+    if _verif.ON:
+        _verif.emit("a2a.pass", name="ConstantFolder", tree=a_tree)
 
     # Replace Type Annotations
     a_tree = ReplaceTypeAnn().visit(a_tree)
 
+    if _verif.ON:
+        _verif.emit("a2a.pass", name="ReplaceTypeAnn", tree=a_tree)
+
     # Replace multi-target assign
     a_tree = ReplaceMultiTargetAssign().visit(a_tree)
+
+    if _verif.ON:
+        _verif.emit("a2a.pass", name="ReplaceMultiTargetAssign", tree=a_tree)
 
     # Rewrite the ast
     a_tree = ASTRewriter().visit(a_tree)
 
+    if _verif.ON:
+        _verif.emit("a2a.pass", name="ASTRewriter", tree=a_tree)
+
     # Fold constants again
     a_tree = ConstantFolder().visit(a_tree)
+
+    if _verif.ON:
+        _verif.emit("a2a.pass", name="ConstantFolder2", tree=a_tree)
 
     # print(ast.dump(a_tree))
     return a_tree
